@@ -29,7 +29,7 @@ lru.LRUCacheStore.__repr__ = lambda self: "LRUCacheStore"
 PROPERTY = "C12"
 KEYS = ["k0", "k1", "k2"]
 PATHS = ["/p0", "/p1"]
-OPS = ["has", "fetch", "store", "sync", "fpaths"]
+OPS = ["has", "fetch", "store", "sync", "fpaths", "storefail"]
 
 EXPLANATION = "C12: LRUCacheStore vs bare store in lock step; pre-state, operation, key, capacity and blob values are solver variables."
 FUNCTIONS_ENCODED = [
@@ -38,7 +38,7 @@ FUNCTIONS_ENCODED = [
     "dds._lru_store.LRUCacheStore.fetch_paths", "dds.store.MemoryStore.*", "dds._api.set_store",
 ]
 BOUNDS = {
-    "quick": {"keys": 3, "paths": 2, "capacity": "any int >= 1 (symbolic)", "values": "unbounded ints or None per key (symbolic)", "step": "all 38 pre-states over 3 keys (any present subset x any recency order of any cached subset, |cache|<=cap) x 16 path tables x 5 ops x 3 keys", "sequences": "every sequence of exactly 3 ops (prefixes are checked at every step) from the empty state", "cache_objects": "None, bool, any int, str, float"},
+    "quick": {"keys": 3, "paths": 2, "capacity": "any int >= 1 (symbolic)", "values": "unbounded ints or None per key (symbolic)", "step": "all 38 pre-states over 3 keys (any present subset x any recency order of any cached subset, |cache|<=cap) x 16 path tables x 5 ops x 3 keys, plus a store_blob that the underlying store refuses (OSError)", "sequences": "every sequence of exactly 3 ops (prefixes are checked at every step) from the empty state", "cache_objects": "None, bool, any int, str, float"},
     "thorough": {"keys": 3, "paths": 2, "capacity": "any int >= 1 (symbolic)", "values": "unbounded ints or None per key (symbolic)", "step": "as quick", "sequences": "every sequence of 4 ops from the empty state, partitioned by the first three opcodes", "cache_objects": "None, bool, any int, str, float"},
 }
 OUTSIDE = ["more than 3 keys / 2 paths", "a key stored with two different values (content-addressed use is assumed)", "inner stores other than MemoryStore in this module (LocalFileStore under the cache is exercised by C04/C16 harnesses)", "weak-reference liveness of evicted objects (the bound is checked on the cache's own table)"]
@@ -94,9 +94,30 @@ def _apply(store, op, ki, pi, vals):
         if op == 4:
             r = store.fetch_paths([PATHS[pi]])
             return list(r.items())
+        if op == 5:
+            # the underlying store refuses the blob (disk full, value that cannot be serialised ...): the error must come out and
+            # the wrapper must keep answering like the bare store
+            try:
+                store.store_blob(KEYS[ki], vals[ki], None)
+            except OSError as e:
+                return _Exc(e)
+            return "stored"
     except DDSException as e:
         return _Exc(e)
     raise AssertionError("bad op")
+
+
+class _Refusing(dstore.MemoryStore):
+    """MemoryStore whose store_blob fails for the keys in `refuse` (an I/O error of the underlying store)."""
+
+    def __init__(self, refuse=()):
+        dstore.MemoryStore.__init__(self)
+        self.refuse = set(refuse)
+
+    def store_blob(self, key, blob, codec=None):
+        if key in self.refuse:
+            raise OSError(28, "No space left on device")
+        return dstore.MemoryStore.store_blob(self, key, blob, codec)
 
 
 def _same(a, b):
@@ -107,9 +128,9 @@ def _same(a, b):
     return type(a) == type(b) and a == b
 
 
-def _build(present, cached, pm0, pm1, cap, vals):
-    inner = dstore.MemoryStore()
-    bare = dstore.MemoryStore()
+def _build(present, cached, pm0, pm1, cap, vals, refuse=()):
+    inner = _Refusing(refuse)
+    bare = _Refusing(refuse)
     for i in range(3):
         if (present >> i) & 1:
             inner._cache[KEYS[i]] = vals[i]
@@ -149,11 +170,11 @@ def step(present: int, cs: int, pm0: int, pm1: int, cap: int, pi: int, v0: int, 
     h.enter()
     op = h.SEL["op"]
     ki = h.SEL["ki"]
-    if op < 3 and (pm0 != -1 or pm1 != -1 or pi != 0):
+    if (op < 3 or op == 5) and (pm0 != -1 or pm1 != -1 or pi != 0):
         return True  # the path table is irrelevant to blob operations: pinned
     if op == 4 and ki != 0:
         return True
-    if op >= 3:
+    if op in (3, 4):
         # path operations never look at blob values, and only at the entry of their own path:
         # values are pinned to ints, the other path is absent or bound to k0
         if nk or no:
@@ -169,10 +190,13 @@ def step(present: int, cs: int, pm0: int, pm1: int, cap: int, pi: int, v0: int, 
     if h.blocked(present=present, cs=cs, pm0=pm0, pm1=pm1, cap=cap, pi=pi, v0=v0, v1=v1, v2=v2, nk=nk, no=no):
         return True
     vals = _vals(ki, v0, v1, v2, nk, no)
-    w, inner, bare = _build(present, cached, pm0, pm1, cap, vals)
+    w, inner, bare = _build(present, cached, pm0, pm1, cap, vals, refuse=([KEYS[ki]] if op == 5 else ()))
     a = _apply(w, op, ki, pi, vals)
     b = _apply(bare, op, ki, pi, vals)
     ok = _same(a, b) and _inv(w, inner, cap) and inner._cache == bare._cache and inner._paths == bare._paths
+    if ok and op == 5:
+        # probes after the refused store
+        ok = _same(_apply(w, 0, ki, 0, vals), _apply(bare, 0, ki, 0, vals)) and _same(_apply(w, 1, ki, 0, vals), _apply(bare, 1, ki, 0, vals))
     return h.verdict(ok)
 
 
@@ -290,10 +314,12 @@ def opt_other(k: int, s: str, f: float) -> bool:
 
 def queries(tier):
     qs = []
-    for op in range(5):
+    for op in range(6):
         for ki in range(3):
             if op == 4 and ki != 0:
                 continue
+            if op == 5 and ki != 0 and tier == "quick":
+                continue  # quick: the refused store for one key (the three keys are symmetric)
             qs.append({"id": "step.%s.k%d" % (OPS[op], ki), "fn": "step", "sel": {"op": op, "ki": ki}, "timeout": 300 if tier == "quick" else 900})
     if tier == "quick":
         for op0 in range(5):
@@ -325,8 +351,8 @@ def replay(sel, args, fn):
         a = args
         ki = sel["ki"]
         vals = _vals(ki, a["v0"], a["v1"], a["v2"], a["nk"], a["no"])
-        inner = dstore.MemoryStore()
-        bare = dstore.MemoryStore()
+        inner = _Refusing()
+        bare = _Refusing()
         cap = a["cap"]
         w = lru.LRUCacheStore(inner, cap)
         log = []
@@ -347,6 +373,10 @@ def replay(sel, args, fn):
         # the step, then two rounds of read-only probes (has / fetch on every key, fetch_paths on every path)
         probes = [(o, k, 0) for o in (0, 1) for k in range(3)] + [(4, 0, 0), (4, 0, 1)]
         seq_ops = [(sel["op"], ki, a["pi"])] + probes + probes
+        if sel["op"] == 5:
+            # the refusal only applies to the step itself (the pre-state above was built with a working store)
+            inner.refuse = {KEYS[ki]}
+            bare.refuse = {KEYS[ki]}
         for (o, k, p) in seq_ops:
             x = _apply(w, o, k, p, vals)
             y = _apply(bare, o, k, p, vals)
